@@ -8,7 +8,7 @@ SEQ_CONSTS = dict(Keys={1, 2}, Vals={"x"}, MaxOps=5, Base=0,
                   ExpKinds={"zero", "cur", "stale", "fut"},
                   OpKinds={"create", "update", "delete", "compact"},
                   CompactKinds={"zero", "cur-1", "old", "above"},
-                  EventKeys=set(), Expiry=False, CompactAfter=0, DelFaultKinds=set(), StreamBatch=1, StreamRestarts=False, GenHist=False)
+                  EventKeys=set(), Expiry=False, CompactAfter=0, DelFaultKinds=set(), StreamBatch=1, StreamRestarts=False, ResetOnRestart=True, GenHist=False)
 
 MC_INV = {
     "C03": ["ScanIsSnapshot", "PointIsSnapshot", "IndexAgrees"],
@@ -145,6 +145,8 @@ def check_seq(prop, tier, seed):
             log("MC KubeBrain single writer: %d client-visible outcomes, identical under both engine parameters" % len(outs[0]))
         # ---- 2. histories generated from KBSeq, run on every engine
         n = 160 if quick else 2000
+        if prop == "C12" and not quick:
+            n = 800                      # (2000 histories x 5 engines with full final sweeps ran into the 30 min limit of the driver)
         if prop == "C13":
             n = 48 if quick else 160     # (600 histories x 120 border sets x 5 engines ran into the 30 min limit of the driver)
         plain = seq_gen(work, dict(SEQ_CONSTS, MaxOps=5 if quick else 7, **G), seed, n)
@@ -213,7 +215,8 @@ def check_seq(prop, tier, seed):
             if rc != 0 or not os.path.exists(rp):
                 raise Undecided("streambulk failed (rc=%s): %s" % (rc, (out or "")[-800:]))
             alltraces.append(tr)
-            cov["replay"].append(dict(what="40 / 400 / 1500 keys, a partition border between two versions of one key, streamed as a whole and per advertised partition",
+            cov["replay"].append(dict(what="40 / 400 / 1500 keys, a partition border between two versions of one key, streamed as a whole and per advertised partition; "
+                                           "with one transient iterator error: the stream, an unlimited list, a limited list and a count",
                                       runs=json.load(open(rp)).get("behaviours", 0), engines="memkv,badger,tikv-regions"))
         # ---- 3. verdicts from trace validation
         if prop == "C12":
